@@ -693,13 +693,13 @@ func TestVerifC01NoiseReplay(t *testing.T) {
 			n := 0
 			for _, tv := range T {
 				for _, tm := range T {
-					if thorough || (!warm && len(edits) == 1 && (byteCfgs[cfg.String()] || cfg.Pro == "none" || (int(seed)+w.Walk+n)%4 == 0)) || (int(seed)+w.Walk+n)%8 == 0 {
+					if thorough || (!warm && len(edits) == 1 && (byteCfgs[cfg.String()] || (cfg.Pro == "none" && (int(seed)+w.Walk+n)%2 == 0))) || (int(seed)+w.Walk+n)%8 == 0 {
 						add("forge-types", [3]string{tv, tv, tm}, -1, false)
 					}
 					n++
 				}
 			}
-		} else if thorough || len(edits) <= 1 || (w.Walk+int(seed))%4 == 0 {
+		} else if thorough || (len(edits) <= 1 && (w.Walk+int(seed))%2 == 0) || (w.Walk+int(seed))%4 == 0 {
 			add("types", pick(), -1, false)
 			if thorough && len(edits) <= 1 {
 				add("types", pick(), -1, false)
